@@ -1,12 +1,22 @@
 #!/bin/bash
 # try_seed.sh <seed-dir> <check-id>... : apply the seeded patch to /repo, run the checks, undo it.
 # Evidence files and replays written while the patch is applied are not kept (evidence must come
-# from the unchanged tree).
+# from the unchanged tree).  The undo runs from an EXIT trap (also on SIGPIPE / SIGINT) and the
+# harness binary is rebuilt against the restored tree afterwards.
 SD="$1"; shift
 TMP=$(mktemp -d /verif/.cache/tryseed.XXXXXX)
 cp -a /verif/evidence "$TMP/evidence"
 ls /verif/replays > "$TMP/replays.before" 2>/dev/null
+cleanup() {
+  trap - EXIT PIPE INT TERM
+  git -C /repo checkout -- . 2>/dev/null
+  rm -rf /verif/evidence; mv "$TMP/evidence" /verif/evidence
+  for f in $(ls /verif/replays 2>/dev/null); do grep -qx "$f" "$TMP/replays.before" || rm -f "/verif/replays/$f"; done
+  rm -rf "$TMP"
+  (cd /verif/harness && cargo build --release --offline >/dev/null 2>&1)
+}
 git -C /repo apply "$SD/patch.diff" || { rm -rf "$TMP"; exit 2; }
+trap cleanup EXIT PIPE INT TERM
 for c in "$@"; do
   OUT=$(/verif/check $c 2>&1 | grep -E "^(VIOLATION|OK|KNOWN)" | head -3)
   echo "[$c] $OUT"
@@ -14,9 +24,5 @@ for c in "$@"; do
   if [ -n "$R" ] && [ -f "$R" ]; then python3 -c "
 import json,sys
 d=json.load(open('$R')); f=d.get('failure') or d.get('obligation')
-print('     ->', json.dumps(f)[:300])"; fi
+print('     ->', json.dumps(f)[:400])"; fi
 done
-git -C /repo checkout -- .
-rm -rf /verif/evidence; mv "$TMP/evidence" /verif/evidence
-for f in $(ls /verif/replays 2>/dev/null); do grep -qx "$f" "$TMP/replays.before" || rm -f "/verif/replays/$f"; done
-rm -rf "$TMP"
